@@ -452,21 +452,15 @@ def _position_finder(x_matrix):
     :return: list of qubit positions to apply the Hadamard on
     :rtype: list
     """
-    pivot = [0, 0]
+    # x_matrix is in row echelon form: walk down the staircase and collect the columns without a pivot
     n = x_matrix.shape[0]
     pos_list = []
-    while pivot[0] < n and pivot[1] < n:
-        try:
-            if x_matrix[pivot[0] + 1, pivot[1]] == 1:
-                pivot = [pivot[0] + 1, pivot[1]]
-            if x_matrix[pivot[0] + 1, pivot[1] + 1] == 1:
-                pivot = [pivot[0] + 1, pivot[1] + 1]
-            else:
-                pivot = [pivot[0], pivot[1] + 1]
-                pos_list.append(pivot[1])
-        except:
-            break
-
+    row = 0
+    for column in range(n):
+        if row < n and x_matrix[row, column] == 1:
+            row += 1
+        else:
+            pos_list.append(column)
     return pos_list
 
 
